@@ -9,7 +9,7 @@ for s in missed:
     heads.append('  * %s: %s' % (s, open(r).readline().strip().lstrip('# ') if os.path.exists(r) else ''))
 print(f"""You are strengthening the model-based (TLA+/TLC) check of property {pid} in the verification framework /verif for the Python library in /repo (TauREx 3). No network. Read /verif/tools/STRENGTHEN_BRIEF.md first and follow it exactly (it points to /verif/tools/BUILDER_BRIEF.md, the report tools/reports/{pid}.md including its earlier "Strengthening" sections, the driver harness/drivers/{pid}.py, its fx_*.py fixtures and its specs in /verif/spec). The property text is the line with id {pid} in /verif/properties.jsonl.
 
-Independently seeded breaking changes (third round) that the current `./check {pid} quick` still MISSES (directories /verif/seeded/<name>/ with README.md, patch.diff, demo.py, check_patched.txt):
+Independently seeded breaking changes (latest round) that the current `./check {pid} quick` still MISSES (directories /verif/seeded/<name>/ with README.md, patch.diff, demo.py, check_patched.txt):
 {chr(10).join(heads)}
 All other seeds of {pid} ({', '.join(s for s in allseeds if s not in missed)}) are detected and must stay detected. A check_patched.txt that ends in MACHINERY-FAILURE means the driver crashed on the patched code instead of reporting a violation: make the driver robust (a wrong shape / NaN / exception from the implementation for an input inside the quantifier is a verdict, not a crash).
 
@@ -19,4 +19,4 @@ Keep the check sound: it must exit 0 on the unchanged /repo for VERIF_SEED=0,1,2
 
 Verify with `tools/confirm_seed.sh {pid} <k> /verif/seeded/{pid}-<k> fast | tail -1` (check_rc=1 = detected) for EVERY seed of {pid}. Never run git commit/stash/checkout/reset in /repo or /verif; other agents work on other properties' files in /verif concurrently, touch only the files the brief allows. If a new clause fails on the unchanged tree decide genuinely whether the code or your clause is wrong (a genuine defect: minimal Edit in /repo plus /verif/proposed_fixes/{pid}-<slug>.diff/.msg; do not commit; if it is not small and safe propose a known-finding entry in your report and give those cases a cls the entry's regex matches).
 
-Finish by appending a "## Strengthening after seeded changes (round 3)" section to tools/reports/{pid}.md and reply with: per seed — detected now? by which clause/class; what was added to the spec and bindings; any new finding on the unchanged tree (with the failing input); quick/thorough wall times; seeds 0-3 clean or not.""")
+Finish by appending a "## Strengthening after seeded changes (round {os.environ.get('ROUND', '4')})" section to tools/reports/{pid}.md and reply with: per seed — detected now? by which clause/class; what was added to the spec and bindings; any new finding on the unchanged tree (with the failing input); quick/thorough wall times; seeds 0-3 clean or not.""")
